@@ -18,6 +18,7 @@ RInit(e) ==
   THEN [kind |-> "conc", n |-> e.n, mode |-> e.mode, gates |-> e.gates, seen |-> {}]
   ELSE [kind |-> "race"]
 
+CtxObs(e) == [op_value |-> e.ctx_op_value, rt_value |-> e.ctx_rt_value, err |-> e.ctx_err, short |-> e.ctx_short]
 ObsPick(e) == [kind |-> e.outcome, id |-> e.consumer_id, names_ct |-> e.err_names_ct]
 
 PickOK(s, e) ==
@@ -28,7 +29,7 @@ PickOK(s, e) ==
         e.code_seen = s.status /\ e.message_ok /\ e.headers_ok /\ e.body_ok
   /\ e.rt_calls = 1
   /\ e.used_client = UsedClient(s.opClient)                      \* per-operation client / context take precedence
-  /\ e.used_ctx = UsedCtx(s.opCtx, s.rtCtx)
+  /\ CtxAllowed(s.opCtx, s.rtCtx, CtxObs(e))                     \* the operation's context whenever it is non-nil
 
 PickWhy(s, e) ==
   IF e.panic THEN "panic"
